@@ -67,6 +67,8 @@ class Scope:
         return None
 
 
+SHARING_OPS = {"share", "publish", "publish_value", "replay", "ref_count", "multicast", "auto_connect"}
+
 #: module context of the function under analysis: local name -> itertools function it was imported as (`from itertools import repeat as r`),
 #: and the local names of the itertools module itself (`import itertools as it`)
 _ITERTOOLS_FUNCS: dict = {}
@@ -99,6 +101,10 @@ def alloc_kind(v):
             return "infinite"
         if n in SUBJECT_CTORS:
             return "subject"
+        # an observable made HOT here - x.pipe(share()) / publish() / replay() / ref_count() / multicast(..): one subject and one subscriber count
+        # behind it, i.e. shared state exactly like a subject allocated at this scope
+        if any(isinstance(c, ast.Call) and (getattr(c.func, "id", None) or getattr(c.func, "attr", None)) in SHARING_OPS for c in ast.walk(v)):
+            return "subject"
         if isinstance(f, ast.Name) and n in ONE_SHOT_CALLS:
             return "oneshot"
         if isinstance(f, ast.Attribute) and n in ONE_SHOT_ATTR and isinstance(f.value, ast.Name) and f.value.id in _ITERTOOLS_MODS:
@@ -108,6 +114,27 @@ def alloc_kind(v):
         if n in ("list", "dict", "set", "deque", "OrderedDict", "defaultdict"):
             return "mutable"
     return "value"
+
+
+def is_nested_mutable(v):
+    """a container literal / comprehension / constructor call whose elements are themselves freshly allocated mutable containers"""
+    if v is None:
+        return False
+
+    def mut(e):
+        return isinstance(e, (ast.List, ast.Dict, ast.Set, ast.ListComp, ast.DictComp, ast.SetComp)) or (
+            isinstance(e, ast.Call) and (getattr(e.func, "id", None) or getattr(e.func, "attr", None)) in ("list", "dict", "set", "deque", "OrderedDict", "defaultdict"))
+    if isinstance(v, (ast.List, ast.Set, ast.Tuple)):
+        return any(mut(e) for e in v.elts)
+    if isinstance(v, ast.Dict):
+        return any(mut(e) for e in v.values if e is not None)
+    if isinstance(v, (ast.ListComp, ast.SetComp)):
+        return mut(v.elt)
+    if isinstance(v, ast.DictComp):
+        return mut(v.value)
+    if isinstance(v, ast.BinOp) and isinstance(v.op, ast.Mult):
+        return (isinstance(v.left, ast.List) and any(mut(e) for e in v.left.elts)) or (isinstance(v.right, ast.List) and any(mut(e) for e in v.right.elts))
+    return False
 
 
 def own_nodes(fn):
@@ -368,6 +395,20 @@ def analyse_function(relpath, fn, loader, iterable_params):
                 findings.append(Finding("C44", fn.name, f"application-writes-factory/{name}",
                                         f"`{name}` (bound at factory scope in {tg.qual()}) is {why} at {lvl} scope in {sc.qual()}: "
                                         f"state leaks between applications of one operator object", line))
+        # reads, from subscription-level code, of a NESTED mutable container allocated before the subscription ([[], []], [[] for ..], a dict
+        # of lists, ...): even an honest per-subscription `x.copy()` / `list(x)` / slice of it is shallow - the inner objects are the same
+        # for every subscription, and what one subscription appends to them the next one finds (C04)
+        if LEVEL_RANK.get(lvl, -1) >= LEVEL_RANK["sub"] and not multicast and not hot:
+            seen_nested = set()
+            for n in nodes:
+                if isinstance(n, ast.Name) and isinstance(n.ctx, ast.Load) and n.id not in seen_nested:
+                    tg = sc.resolve(n.id)
+                    tl = level_of(tg) if tg is not None else None
+                    if tg is not None and tl in LEVEL_RANK and LEVEL_RANK[tl] < LEVEL_RANK["sub"] and is_nested_mutable(tg.exprs.get(n.id)):
+                        seen_nested.add(n.id)
+                        findings.append(Finding("C04", fn.name, f"subscription-shares-nested-outer-object/{n.id}",
+                                                f"`{n.id}` (a container of mutable containers allocated at {tl} scope in {tg.qual()}) is used at {lvl} scope in "
+                                                f"{sc.qual()}: a per-subscription copy of it is shallow, the inner containers are shared by all subscriptions", n.lineno))
         # reads of factory-scope mutable allocations from the application function (C44)
         if LEVEL_RANK.get(lvl, -1) >= LEVEL_RANK["app"]:
             for n in nodes:
